@@ -306,7 +306,7 @@ impl Property for C13 {
         tier.pick(2_500, 40_000)
     }
     fn strategy(_tier: Tier) -> BoxedStrategy<Spec> {
-        let cfg = Cfg { min_steps: 1, max_steps: 3, max_owners: 1, ..Cfg::basic() };
+        let cfg = Cfg { min_steps: 1, max_steps: 3, max_owners: 1, big: true, ..Cfg::basic() };
         (
             valid_world(cfg),
             any::<u8>(),
